@@ -323,9 +323,9 @@ theorem processVariants_run (root n a : Nat) (h : Heap) (rc : Cls) (hrc : h.cls[
   rw [M.bind_ok (SpyneModel.Derive.getCls root) _ h h rc (by simp [SpyneModel.Derive.getCls, hrc])]
   rfl
 
-theorem keeps_newVariant (sc : Cls) (src : Nat) (ext : Option Nat) (kw : Kw) (h0 : Heap)
-    (hk : sc.kind.isComplex = true) :
-    Keeps (fun h => h.cls[src]? = some sc) (newVariant sc src ext kw h0) TrQ := by
+theorem keeps_newVariantTail (rec0 : AttrRec) (hrec0 : rec0.variants = none) (sc : Cls) (src : Nat) (ext : Option Nat)
+    (kw : Kw) (hk : sc.kind.isComplex = true) :
+    Keeps (fun h => h.cls[src]? = some sc) (newVariantTail rec0 sc src ext kw) TrQ := by
   intro h ih hsrc
   -- the original exists, is of the family, is itself no variant, and its record has an own entry
   have hvsrc : (viewOf h).cls src = some (true, sc.attrs, sc.orig) := by simp [viewOf, hsrc, hk]
@@ -362,7 +362,6 @@ theorem keeps_newVariant (sc : Cls) (src : Nat) (ext : Option Nat) (kw : Kw) (h0
   -- run the block
   let a := h.attrs.length
   let n := h.cls.length
-  let rec0 := newAttrRec h0 sc.attrs kw
   let h1 : Heap := { h with attrs := h.attrs ++ [rec0] }
   let h2 : Heap := { h1 with cls := h1.cls ++ [variantCls sc src a ext kw] }
   let fd : AttrRec → AttrRec := fun r => { r with dca := some (match dcaH h2 a with | some (_, d) => d | none => []) }
@@ -371,10 +370,10 @@ theorem keeps_newVariant (sc : Cls) (src : Nat) (ext : Option Nat) (kw : Kw) (h0
   let h5 := h4.updCells a (fun r => { r with variants := some none })
   have hcls3 : h3.cls = h.cls ++ [variantCls sc src a ext kw] := by
     simp only [h3, Heap.updCells]; split <;> rfl
-  have hrun : newVariant sc src ext kw h0 h = .ok h5 (a, n) := by
+  have hrun : newVariantTail rec0 sc src ext kw h = .ok h5 (a, n) := by
     have hroot3 : h3.cls[sc.orig.getD src]? = some rc := by
       rw [hcls3, List.getElem?_append_left hrootlt]; exact hrc
-    unfold newVariant
+    unfold newVariantTail
     rw [M.bind_ok (allocAttrs rec0) _ h h1 a rfl]
     rw [M.bind_ok (allocCls _) _ h1 h2 n rfl]
     rw [M.bind_ok (copyDca a) _ h2 h3 () rfl]
@@ -384,7 +383,9 @@ theorem keeps_newVariant (sc : Cls) (src : Nat) (ext : Option Nat) (kw : Kw) (h0
   rw [hrun]
   simp only [Res.heap, Inv]
   have hne : a ≠ ar := by omega
-  have v1 : viewOf h1 = { viewOf h with var := upd (viewOf h).var a (some none) } := viewOf_allocAttrs h rec0
+  have v1 : viewOf h1 = { viewOf h with var := upd (viewOf h).var a (some none) } := by
+    have := viewOf_allocAttrs h rec0
+    rw [hrec0] at this; exact this
   have v2 : viewOf h2 = { viewOf h1 with cls := upd (viewOf h1).cls n (some (true, a, some (sc.orig.getD src))) } := by
     have := viewOf_allocCls h1 (variantCls sc src a ext kw)
     rw [this]
@@ -421,6 +422,10 @@ theorem keeps_newVariant (sc : Cls) (src : Nat) (ext : Option Nat) (kw : Kw) (h0
 theorem Keeps.anyPre {α : Type} {P : Heap → Prop} {m : M α} {Q : α → Heap → Prop} (k : Keeps Tr m Q) : Keeps P m Q :=
   k.weaken (fun _ _ => trivial) (fun _ _ q => q)
 
+theorem Keeps.anyPre' {α : Type} {P P' : Heap → Prop} {m : M α} {Q : α → Heap → Prop} (k : Keeps P m Q)
+    (hp : ∀ h, P' h → P h := by intro h p; first | exact p.1 | exact p.1.1 | exact p.2) : Keeps P' m Q :=
+  k.weaken hp (fun _ _ q => q)
+
 theorem Keeps.toTr {α : Type} {P : Heap → Prop} {m : M α} {Q : α → Heap → Prop} (k : Keeps P m Q) : Keeps P m TrQ :=
   k.weaken (fun _ p => p) (fun _ _ _ => trivial)
 
@@ -436,5 +441,58 @@ theorem Keeps.guardThen {β : Type} (P : Heap → Prop) (e : Option String) (f :
     have : (SpyneModel.Derive.guardNone none >>= f) = f () := rfl
     rw [this]
     exact k rfl
+
+theorem viewOf_updCol (h : Heap) (a : Nat) (d : Kw) : viewOf (h.updCol a d) = viewOf h := by
+  unfold Heap.updCol
+  split
+  · rename_i r hr
+    simp only [viewOf, View.mk.injEq, true_and]
+    funext j
+    by_cases e : a = j
+    · subst e
+      have hlt : a < h.attrs.length := by
+        rcases Nat.lt_or_ge a h.attrs.length with hl | hl
+        · exact hl
+        · rw [List.getElem?_eq_none hl] at hr; cases hr
+      simp [List.getElem?_set_self hlt, hr]
+    · simp [List.getElem?_set_ne e]
+  · rfl
+
+theorem updCol_cls (h : Heap) (a : Nat) (d : Kw) : (h.updCol a d).cls = h.cls := by
+  unfold Heap.updCol; split <;> rfl
+
+/-- the in-place write of a shallow copy does not concern the variants discipline, nor any class record -/
+theorem keeps_aliasColWrite (F : Facts15) (a : Nat) (kw : Kw) (P : Heap → Prop)
+    (hP : ∀ h h' : Heap, h'.cls = h.cls → P h → P h') :
+    Keeps P (aliasColWrite F a kw) (fun _ h => P h) := by
+  unfold aliasColWrite
+  refine Keeps.bind (Keeps.getHeap P) (fun h0 => ?_)
+  split
+  · exact (Keeps.pure _ ()).weaken (fun _ p => p) (fun _ _ q => q.1.1)
+  · split
+    · exact (Keeps.pure _ ()).weaken (fun _ p => p) (fun _ _ q => q.1.1)
+    · intro h ih p
+      refine ⟨?_, ?_⟩
+      · simp only [SpyneModel.Derive.updCol, Res.heap, Inv, viewOf_updCol]; exact ih
+      · intro h' u he
+        simp only [SpyneModel.Derive.updCol] at he
+        cases he
+        exact hP h _ (updCol_cls h _ _) p.1
+
+theorem keeps_allocDerived (F : Facts15) (a : Nat) (kw : Kw) :
+    Keeps Tr (allocDerived F a kw) (fun x h => (viewOf h).var x ≠ none) := by
+  unfold allocDerived
+  refine Keeps.bind (Keeps.getHeap Tr) (fun h0 => ?_)
+  refine Keeps.bind (keeps_aliasColWrite F a kw Tr (fun _ _ _ _ => trivial)).anyPre (fun _ => ?_)
+  exact Keeps.allocAttrs _ _
+
+theorem keeps_newVariant (F : Facts15) (sc : Cls) (src : Nat) (ext : Option Nat) (kw : Kw)
+    (hk : sc.kind.isComplex = true) :
+    Keeps (fun h => h.cls[src]? = some sc) (newVariant F sc src ext kw) TrQ := by
+  unfold newVariant
+  refine Keeps.bind (Keeps.getHeap _) (fun h0 => ?_)
+  refine Keeps.bind (keeps_aliasColWrite F sc.attrs kw (fun h => h.cls[src]? = some sc)
+    (fun h h' e p => by rw [e]; exact p)).anyPre' (fun _ => ?_)
+  exact keeps_newVariantTail _ rfl sc src ext kw hk
 
 end SpyneModel.Derive
